@@ -125,7 +125,8 @@ Definition known_panic_classes : list (string * list Z) := [
   ("parquet/src/encodings/decoding/byte_stream_split_decoder.rs|index out of bounds: the len is", pq_kinds);
   ("parquet/src/arrow/array_reader/byte_array.rs|attempt to divide by zero", pq_kinds);
   ("parquet/src/arrow/array_reader/map_array.rs|called `Result::unwrap()` on an `Err` value: Gen", pq_kinds);
-  ("arrow-data/src/data.rs|called `Result::unwrap()` on an `Err` value: Try", ipc_kinds)
+  ("arrow-data/src/data.rs|called `Result::unwrap()` on an `Err` value: Try", ipc_kinds);
+  ("parquet/src/encodings/decoding.rs|attempt to subtract with overflow", pq_kinds)
 ].
 Fixpoint class_index (k : Z) (cls : list Z) (tbl : list (string * list Z)) (i : Z) : Z :=
   match tbl with
